@@ -62,7 +62,20 @@ CHECKS.update({
          "trusted: grounder, finite slice with two-window stability; no reference semantics needed", "4 C19"),
 })
 
-CLAIMED = ["C01", "C02", "C03", "C04", "C05", "C06", "C07", "C08", "C09", "C11", "C12", "C13", "C14", "C15", "C16", "C17", "C19"]
+
+CHECKS.update({
+ "C10": ("stateless exploration of prover-completion schedules and outcome assignments on the real binary (controlled scheduler via a parking stand-in prover) + loom exploration of all interleavings (bounded preemptions) of the real prove_all source",
+         "Layer 2 runs the real `anthem verify` with a stand-in vampire that parks until released; every assignment of outcomes (Theorem, other SZS statuses, unknown word, no status line, non-UTF8 noise, non-zero exit, death by signal) to the problems and every release order for 1..8 prover instances is executed and judged (Success iff all Theorem, each problem handed over once and byte-identical to its saved file); plus the missing-executable configuration. Layer 1 compiles the repository's own prove_all text against loom and explores all schedules up to the preemption bound.",
+         "trusted: the stand-in protocol (identifies problems by their stdin), loom port of threadpool 1.8.1 and the mpsc shim (validated against std on all operation sequences and against 200 free-running runs of the real implementation)", "4 C10"),
+ "C18": ("exhaustive pass-by-pass re-execution of the fixpoint iteration with cycle detection over the formula families (model checking); repeated fresh-process runs compared byte-wise over the whole corpus (exploration in the hash-seed dimension)",
+         "Termination/idempotence: for every formula of families A-H (incl. deep chains needing one pass per level) x 3 portfolios the iteration is re-run pass by pass with cycle detection, the real apply_fixpoint must return the same formula and be idempotent. Determinism: every command on every corpus input is run R times in fresh processes and compared byte-wise.",
+         "trusted: structural equality of formulas; the hash-seed dimension of the determinism half is sampled (R fresh processes), which is stated in the evidence", "4 C18"),
+ "C20": ("exhaustive enumeration of argument permutations x direct/directory placements on the real CLI against a reference role rule",
+         "For each file set all permutations of the argument list and all ways of giving files directly or through up to two directories are run with --no-proof-search --save-problems; the emitted problem files must be byte-identical to those of the canonical call computed by the reference rule; swapping the programs of a strong task must exchange forward and backward.",
+         "trusted: the reference role rule in cli/c20_roles.py, written from the property statement", "4 C20"),
+})
+
+CLAIMED = ["C01", "C02", "C03", "C04", "C05", "C06", "C07", "C08", "C09", "C10", "C11", "C12", "C13", "C14", "C15", "C16", "C17", "C18", "C19", "C20"]
 
 NOT_YET = "engine for this property not built yet in this session (see DESIGN.md section 9)"
 
@@ -89,7 +102,7 @@ def main():
             na.append({"property_id": pid, "reason": NA.get(pid, NOT_YET)})
     m = {
         "version": 1,
-        "setup_cmd": "cd /verif/engine && CARGO_NET_OFFLINE=true cargo build --release --offline",
+        "setup_cmd": "cd /verif/engine && CARGO_NET_OFFLINE=true cargo build --release --offline && cd /verif/sched && CARGO_NET_OFFLINE=true cargo build --release --offline && CARGO_NET_OFFLINE=true cargo build --release --offline --manifest-path /repo/Cargo.toml --target-dir /verif/target-repo",
         "hooks": {
             "guard": "cargo feature `verif` of the anthem crate",
             "enable": "the engine crate depends on anthem by path=/repo with features=[\"verif\"]; every check runs `cargo build --release --offline` first, so it links /repo's current working tree",
@@ -98,6 +111,8 @@ def main():
             "add_only": True,
         },
         "engines": [
+            {"name": "vsched", "path": "/verif/sched", "serves_properties": ["C10"], "kind_free_text": "loom harness around a build-time instrumented copy of /repo/src/verifying/prover/mod.rs"},
+            {"name": "cli", "path": "/verif/cli", "serves_properties": ["C10", "C11", "C16", "C18", "C20"], "kind_free_text": "python drivers exploring the real anthem binary (controlled prover scheduler, argument permutations, special files, repeated fresh processes)"},
             {"name": "vengine", "path": "/verif/engine", "serves_properties": CLAIMED,
              "kind_free_text": "Rust explorer linking the real anthem crate: bounded-exhaustive input enumeration x exhaustive interpretation enumeration (bit-parallel truth tables) against reference semantics"},
         ],
